@@ -58,6 +58,7 @@ fn main() {
                         "fold" => { aelys_opt::ConstantFolder::new().run(&mut t); }
                         "globalprop" => { aelys_opt::GlobalConstantPropagator::new().run(&mut t); }
                         "unused" => { aelys_opt::passes::UnusedVarEliminator::new().run(&mut t); }
+                        "unused-open" => { let mut u = aelys_opt::passes::UnusedVarEliminator::new(); u.set_top_level_open(true); u.run(&mut t); }
                         _ => {}
                     }
                     t
